@@ -59,6 +59,16 @@ func genTokens(g *Rng, tier string) *Plan {
 	}
 	if k.SameKey {
 		k.Deploys[1].KeyIdx = 1
+		switch g.PickW(6, 3, 0, 1) {
+		case 1:
+			// the sibling lives on the same host, another port (cookies are not port-scoped: the browser presents the target's cookie there and vice versa)
+			k.Deploys[1].Host, k.Deploys[1].HTTPS = k.Deploys[0].Host+":8443", k.Deploys[0].HTTPS
+		case 2:
+			// (not drawn: the same host in another spelling - case, trailing dot - is arguably the same audience)
+			k.Deploys[1].Host = strings.ToUpper(k.Deploys[0].Host[:3]) + k.Deploys[0].Host[3:] + "."
+		case 3:
+			k.Deploys[1].Host = "www." + k.Deploys[0].Host
+		}
 	}
 	if ec {
 		k.Deploys[0].KeyIdx, k.Deploys[1].KeyIdx = 0, 1
